@@ -216,6 +216,15 @@ func (p *c17) requiredFields(x *res, ctx *runner.Ctx) {
 		{"put-empty-table-name", adapt.Op{Kind: adapt.OpPut, Table: "", Item: val.Item{"h": val.Str("k")}}},
 		{"scan-empty-table-name", adapt.Op{Kind: adapt.OpScan, Table: ""}},
 		{"batchwrite-empty", adapt.Op{Kind: adapt.OpBatchWrite}},
+		// what the SDK structures can express although it is no attribute value: both clients give the same answer
+		{"put-null-false", adapt.Op{Kind: adapt.OpPut, Table: spec.Name, Item: val.Item{"h": val.Str("k"), "a": val.Invalid("null-false")}}},
+		{"put-null-false-nested", adapt.Op{Kind: adapt.OpPut, Table: spec.Name, Item: val.Item{"h": val.Str("k"), "a": val.List(val.Map(map[string]val.V{"x": val.Invalid("null-false")}))}}},
+		{"put-missing-list-element", adapt.Op{Kind: adapt.OpPut, Table: spec.Name, Item: val.Item{"h": val.Str("k"), "a": val.List(val.Str("x"), val.Invalid("nil"))}}},
+		{"put-untyped-map-member", adapt.Op{Kind: adapt.OpPut, Table: spec.Name, Item: val.Item{"h": val.Str("k"), "a": val.Map(map[string]val.V{"x": val.Invalid("empty")})}}},
+		{"delete-condition-value-null-false", adapt.Op{Kind: adapt.OpDelete, Table: spec.Name, Key: val.Item{"h": val.Str("k")}, Cond: "attribute_not_exists(a) OR a = :n", Values: val.Item{":n": val.Invalid("null-false")}}},
+		{"update-value-null-false", adapt.Op{Kind: adapt.OpUpdate, Table: spec.Name, Key: val.Item{"h": val.Str("k")}, Update: "SET a = :n", Values: val.Item{":n": val.Invalid("null-false")}}},
+		{"scan-filter-value-missing-element", adapt.Op{Kind: adapt.OpScan, Table: spec.Name, Filter: "a = :n", Values: val.Item{":n": val.List(val.Invalid("nil"))}}},
+		{"get-key-null-false", adapt.Op{Kind: adapt.OpGet, Table: spec.Name, Key: val.Item{"h": val.Invalid("null-false")}}},
 		{"query-unknown-index", queryOp(spec.Name, "nosuchindex", keyCondEq("h", ":h"), nil, val.Item{":h": val.Str("k")}, false, refmodel.RenderOpts{})},
 		{"scan-unknown-index", adapt.Op{Kind: adapt.OpScan, Table: spec.Name, Index: "nosuchindex"}},
 	}
